@@ -63,6 +63,31 @@ def generate(rng, tier, seed):
                                 return f"CBC block {j} is not E(p_j xor c_(j-1))"
                     c.pred("ECB per block / CBC textbook chaining", p)
                     yield c
+        # keys with repeated 8-byte components (K1|K1|K3, K1|K2|K2, K1|K2|K1, K|K|K, K|K), all-equal bytes, weak-looking patterns:
+        # every admissible key is a key, whatever its internal structure
+        if alg == "tdes":
+            a8, b8, c8 = rb(rng, 8), rb(rng, 8), rb(rng, 8)
+            special = [a8 + a8 + c8, a8 + b8 + b8, a8 + b8 + a8, a8 + a8 + a8, a8 + a8, a8 + b8, bytes(8), bytes(24), b"\xff" * 16, b"\x01" * 24,
+                       b"12345678", b"0123456789ABCDEF", b"0123456789abcdef01234567"]
+        else:
+            a8 = rb(rng, 8)
+            special = [a8 * 2, a8 * 3, a8 * 4, bytes(16), bytes(32), b"\xff" * 24,
+                       # keys that happen to be ASCII text / ASCII hex digits are binary keys like any other
+                       b"1" * 16, b"1" * 32, b"00112233445566778899AABBCCDDEEFF", (b"0123456789abcdef" * 2)[:24], b"A" * 32]
+        for key in special:
+            iv, data = rb(rng, bs), rb(rng, 3 * bs)
+            c = Case(f"{alg}:structured-key", {"key": key.hex()[:16], "len": len(key)})
+            e = c.call(f"{mod}.encrypt_{alg}_ecb", key, data)
+            ce = c.call(f"{mod}.encrypt_{alg}_cbc", key, iv, data)
+            if e.ok and ce.ok:
+                c.call(f"{mod}.decrypt_{alg}_ecb", key, e.value)
+                c.call(f"{mod}.decrypt_{alg}_cbc", key, iv, ce.value)
+            else:
+                c.fail("admissible key rejected")
+            if alg == "tdes":
+                for n in (2, 3, 8):
+                    c.call("des.generate_kcv", key, n)
+            yield c
         # long data around the sizes an implementation might chunk or buffer at: the model computes textbook chaining over the
         # whole input, so a context restarted (or finalised) mid-stream shows as a disagreement
         for ln in sorted(set(x - x % bs for x in core.big_lengths(rng, tier, bs))):
